@@ -68,10 +68,29 @@ func (d *rngDist) Rand(r *rand.Rand) float64 {
 	return 42 + r.Float64()
 }
 
+// latDist is a user-defined DISCRETE distribution (it has PMF and Step besides CDF and Bounds): a step
+// CDF on the lattice x0 + k*step. Its quantiles are what the same CDF gives without those methods.
+type latDist struct {
+	pwDist
+	step float64
+}
+
+func (d *latDist) PMF(x float64) float64 {
+	for i, k := range d.x {
+		if k == x {
+			return d.r[i] - d.l[i]
+		}
+	}
+	return 0
+}
+func (d *latDist) Step() float64 { return d.step }
+
 func mkDist(a []Tok) (stats.DistCommon, []Tok) {
 	switch a[0].Atom {
 	case "pw":
 		return mkPW(a[1]), a[2:]
+	case "pwd":
+		return &latDist{*mkPW(a[1]), a[2].F()}, a[3:]
 	case "bin":
 		return stats.BinomialDist{N: a[1].Int(), P: a[2].F()}, a[3:]
 	case "hyp":
@@ -194,10 +213,10 @@ func execRnd(a []Tok) string {
 	// generic generator redraws from THE SAME source; NormalDist and distributions with their own Rand
 	// never ask for a uniform variate this way
 	if _, own := d.(interface{ Rand(*rand.Rand) float64 }); !own {
-		z := rand.New(&zeroFirst{rest: rand.NewSource(seed)})
+		z := rand.New(&zeroFirst{more: int(seed % 4), rest: rand.NewSource(seed)})
 		got := stats.Rand(d)(z)
 		y := 0.0
-		z2 := rand.New(&zeroFirst{rest: rand.NewSource(seed)})
+		z2 := rand.New(&zeroFirst{more: int(seed % 4), rest: rand.NewSource(seed)})
 		for y == 0 {
 			y = z2.Float64()
 		}
@@ -209,14 +228,18 @@ func execRnd(a []Tok) string {
 	return fmtF(v) + " " + fmtF(w) + " " + fmtF(again) + " " + fmtB(same(a1, b1) && same(a2, b2) && r3.Int63() == r4.Int63())
 }
 
-// zeroFirst is a rand.Source whose first value is 0; afterwards it follows rest.
+// zeroFirst is a rand.Source whose first value (or first few values: `more`) is 0; afterwards it follows rest.
 type zeroFirst struct {
 	used bool
+	more int
 	rest rand.Source
 }
 
 func (z *zeroFirst) Int63() int64 {
-	if !z.used {
+	if !z.used || z.more > 0 {
+		if z.used {
+			z.more--
+		}
 		z.used = true
 		return 0
 	}
@@ -323,6 +346,48 @@ func genC07(w *bufio.Writer, tier string, rng *rand.Rand) {
 			if len(ys2) > 0 {
 				fmt.Fprintf(w, "inv pwmut %s %s %s\n", randPW(rng), pw, fmtFs(ys2))
 			}
+		}
+	}
+	// user-defined discrete distributions (PMF and Step implemented) on lattices whose step is not a power of
+	// two: the quantile is the smallest support point whose CDF reaches y, whatever the step
+	for k := 0; k < pick(tier, 150, 4000); k++ {
+		step := []float64{3, 6, 0.75, 0.1, 7, 1.5, 10, 0.3, 1, 2, 5, 1e-3, 12.5}[rng.Intn(13)]
+		x0 := []float64{0, 0, 1, -3, 2.5, 100, -17}[rng.Intn(7)] * []float64{1, step}[rng.Intn(2)]
+		m := 1 + rng.Intn(14)
+		var parts []string
+		lv := 0.0
+		var levels []float64
+		for i := 0; i <= m; i++ {
+			r := lv + float64(1+rng.Intn(12))/64
+			if r > 1 || i == m {
+				r = 1
+			}
+			parts = append(parts, fmt.Sprintf("[%s,%s,%s]", fmtF(x0+float64(i)*step), fmtF(lv), fmtF(r)))
+			levels = append(levels, r, (lv+r)/2)
+			lv = r
+			if r == 1 {
+				break
+			}
+		}
+		pw := "[" + strings.Join(parts, ",") + "]"
+		var ys []float64
+		for q := 0; q < 5; q++ {
+			y := levels[rng.Intn(len(levels))]
+			switch rng.Intn(4) {
+			case 0:
+				y = rng.Float64()
+			case 1:
+				y = math.Nextafter(y, float64(rng.Intn(2)*3-1))
+			}
+			if y <= 0 || y > 1 {
+				y = 0.5
+			}
+			ys = append(ys, y)
+		}
+		ys = append(ys, 0.5, 0.25, 0.99)
+		fmt.Fprintf(w, "inv pwd %s %s %s\n", pw, fmtF(step), fmtFs(ys))
+		if rng.Intn(4) == 0 {
+			fmt.Fprintf(w, "rnd pwd %s %s %d\n", pw, fmtF(step), rng.Intn(1<<30))
 		}
 	}
 	// long histories through one closure (thousands of queries of one returned function)
